@@ -229,9 +229,10 @@ def _f26(vio):
 @mechanism("F32-num-axis0-recordarray")
 def _f32(vio):
     op = _op_of(vio)
-    return vio.get("kind") == "value-differs" and op.get("op") == "num" and _has_class(vio, ("RecordArray",)) and \
-        ("{" in str((vio.get("detail") or {}).get("A", "")) + str((vio.get("detail") or {}).get("B", "")) +
-         str((vio.get("detail") or {}).get("C", "")))
+    det = vio.get("detail") or {}
+    return vio.get("kind") in ("value-differs", "wrong-value") and op.get("op") == "num" and \
+        _has_class(vio, ("RecordArray",)) and \
+        ("{" in str(det.get("A", "")) + str(det.get("B", "")) + str(det.get("C", "")) + str(det.get("got", "")))
 
 
 @mechanism("F33-fillna-unmasked-recurses")
